@@ -58,6 +58,10 @@ def pick_fast_motif(prng, shape_focus=False):
     else:
         k = prng.choice(("lib_clique", "lib_clique", "lib_cycle", "lib_diamond", "star", "path", "single",
                          "clique", "lib_clique2", "empty" if r < 0.3 else "lib_clique"))
+    if prng.random() < 0.06:
+        # a builder whose NUMBER of edges depends on the vertices it is given: the simple-graph clique (a vertex drawn twice
+        # contributes once, so self-loops and parallel edges are dropped)
+        return {"kind": "simple_clique", "size": prng.randrange(2, 5)}
     if k == "lib_clique":
         return {"kind": "lib_clique", "size": prng.randrange(2, 6)}
     if k == "lib_clique2":
@@ -355,6 +359,11 @@ def _shape_fn(edges, ret):
     return fn
 
 
+def _simple_clique(vs):
+    ds = sorted(set(vs))
+    return [(ds[i], ds[j]) for i in range(len(ds)) for j in range(i + 1, len(ds))]
+
+
 def build_params(sc, rec):
     p = {}
     if sc["algo"] in ("fast", "network"):
@@ -368,6 +377,8 @@ def build_params(sc, rec):
                 f = cycle_motif
             elif m["kind"] == "lib_diamond":
                 f = diamond_motif
+            elif m["kind"] == "simple_clique":
+                f = _simple_clique
             else:
                 f = _shape_fn(shape_edges(m["kind"], m["size"]), "list")
             fns.append(f if sc.get("raw_builders") else rec.build(k, f))
@@ -375,7 +386,8 @@ def build_params(sc, rec):
         if sh:
             i, j = sh["types"]
             m = sc["topos"][i]
-            f = {"lib_clique": clique_motif, "lib_cycle": cycle_motif, "lib_diamond": diamond_motif}.get(m["kind"]) or _shape_fn(shape_edges(m["kind"], m["size"]), "list")
+            f = ({"lib_clique": clique_motif, "lib_cycle": cycle_motif, "lib_diamond": diamond_motif, "simple_clique": _simple_clique}.get(m["kind"])
+                 or _shape_fn(shape_edges(m["kind"], m["size"]), "list"))
             fns[i] = fns[j] = rec.build_shared([i, j], sh["split"], f)
         p[GCMAlgorithmNames.MOTIF_SIZES] = sizes
         p[GCMAlgorithmNames.BUILD_FUNCTIONS] = fns
